@@ -40,7 +40,7 @@ func (*prop) MinDistinct(tier string) int64 {
 	if tier == "thorough" {
 		return 1500
 	}
-	return 250
+	return 150
 }
 func (*prop) Workers(tier string) int { return 8 } // each corpus load holds ~200 type-checked packages in memory
 
@@ -227,7 +227,8 @@ func checkPackage(res *core.Result, u *gengotypes.Universe, p gengotypes.Package
 				st.genericMethods++
 			}
 		}
-		for _, mode := range []bool{true, false} {
+		// the accessor is queried repeatedly and in both orders: an answer must not depend on earlier queries
+		for _, mode := range []bool{true, false, false, true, false, true} {
 			got := map[*types.Func]bool{}
 			for _, m := range p.MethodsOf(named, mode) {
 				if got[m] {
